@@ -90,6 +90,36 @@ def main():
         if not a.startswith("a") or a[1:] != b[1:]:
             npred += 1
             if first_pred is None: first_pred = ([st], "stream after setLocalSeed differs from the stream of a fresh generator with that seed")
+    # ---- the generator itself: uniform01 / uniformBool / uniformInt draws of RNG(seed) against RngModel (mt19937 + uniform_real_distribution
+    #      transcribed from libstdc++), evaluated by vm_compute on primitive floats: bit for bit
+    import struct as _st
+    mstreams = []
+    for i in range(60 if quick else 1500):
+        pat = "".join(rng.choice("uuubi") for _ in range(rng.randint(1, 40)))
+        mstreams.append(("STREAM %d %s u" % (rng.choice([1, 2, 5489, 10 ** 9, rng.randint(1, 10 ** 9), rng.randint(1, 10 ** 9)]), pat), pat))
+    if not quick: mstreams.append(("STREAM 7 %s u" % ("u" * 700), "u" * 700))       # across two refills of the 624-word state
+    else: mstreams.append(("STREAM 7 %s u" % ("u" * 330), "u" * 330))                 # across one refill (two words per draw)
+    rcm, om, em, sm = vf.sh([drv], input="\n".join(l for l, _ in mstreams) + "\n", timeout=300); c.step("correspond:impl-streams", drv, sm, rcm == 0)
+    mout = om.split("\n"); nstream_bad = 0; tms = 0.0; mres = []
+    for a0 in range(0, len(mstreams), 200):
+        part = mstreams[a0:a0 + 200]
+        src = "From Coq Require Import List NArith Floats. From OmplV Require Import RngModel. Import ListNotations.\nEval vm_compute in [\n" + ";\n".join("rng_draws %s%%N [%s]" % (l.split()[1], "; ".join({"u": "DU", "b": "DB", "i": "DI"}[ch] for ch in pat)) for l, pat in part) + "].\n"
+        pth = os.path.join(c.outdir, "rng_cases_%d.v" % a0); open(pth, "w").write(src)
+        rcq, oq, eq_, sq = vf.sh("timeout 900 coqc -Q %s OmplV %s" % (vf.COQ, pth), timeout=1000); tms += sq
+        if rcq != 0: c.broken.append("model evaluation (coqc rng_cases) failed: " + (eq_ or oq)[-300:]); break
+        txt = oq[oq.index("["):oq.rindex("]") + 1].replace("%float", "").replace(";", ",")
+        mres += eval(txt, {"__builtins__": {}, "infinity": float("inf"), "neg_infinity": float("-inf"), "nan": float("nan")})
+    c.step("correspond:model-streams", "coqc rng_cases_*.v (Eval vm_compute, RngModel)", tms, not c.broken)
+    for k, (l, pat) in enumerate(mstreams):
+        a = mout[3 * k].split()[1:] if 3 * k < len(mout) and mout[3 * k].startswith("a") else []
+        want = []
+        if k < len(mres):
+            for ch, v in zip(pat, mres[k]):
+                want.append("%016x" % _st.unpack("<Q", _st.pack("<d", float(v)))[0] if ch == "u" else "%d" % int(v))
+        if a != want:
+            nstream_bad += 1; ndiff += 1
+            if first_diff is None: first_diff = ([l], a[:12], want[:12])
+    c.cov.update({"generator_streams_compared": len(mstreams), "generator_stream_disagreements": nstream_bad})
     # ---- whole-planner determinism across processes
     plans = []
     pl = PLANNERS[:8] if quick else PLANNERS
@@ -136,6 +166,7 @@ def main():
                   "disagreements": ndiff, "predicate_failures": npred, "stream_patterns": len(streams), "planner_runs": 2 * nplan, "planners": pl})
     c.cov["samples"] = [" ; ".join(scripts[0][:6]), streams[0], plans[0]]
     c.cov["trusted_base"] += ["extraction (ExtrOcamlBasic) + extract/seed_driver.ml; harness/seed_driver.cpp",
+                             "RngModel transcribes libstdc++ 12's mersenne_twister_engine and generate_canonical; its draws are evaluated by vm_compute on primitive binary64 floats and 63-bit integers",
                              "the seed-sequence model transcribes libstdc++ 12's subtract_with_carry_engine and uniform_int_distribution as installed here; against another standard library the correspondence, not the theorems, would flag the difference"]
     c.assumptions += ["whole-planner determinism is checked differentially (two processes, ASLR on, different environment size) for %d planners; it is not a theorem" % len(pl),
                       "a reset distribution object behaves like a freshly constructed one (boost/libstdc++), encoded as the caches being emptied"]
@@ -144,7 +175,7 @@ def main():
         c.violation("implementation violates C20: " + bad, "# C20 replay: bin/check C20 --replay <this file>\n" + "\n".join(sc) + "\n")
     elif first_diff:
         sc, io, mo = first_diff
-        c.broken.append("correspondence C20 (seed generator vs SeedModel) differs on '%s': implementation %s model %s" % (" ; ".join(sc)[:200], io[:8], mo[:8]))
+        c.broken.append("correspondence C20 (seed generator vs SeedModel / generator draws vs RngModel) differs on '%s': implementation %s model %s" % (" ; ".join(sc)[:200], io[:8], mo[:8]))
     c.finish()
 
 
